@@ -653,8 +653,10 @@ fn parse_escape_code(l: &mut Lexer<'_>) -> core::result::Result<char, Option<Err
             match l.stream.next() {
                 None => return Err(None),
                 Some((_, '{')) => (),
-                Some((_, unexpected_char)) => {
-                    let span = span_one(l, index, unexpected_char);
+                Some((_, _unexpected_char)) => {
+                    // `index` is the position of the `u`: the span covers the `u`, not
+                    // `unexpected_char.len_utf8()` bytes starting at the `u`.
+                    let span = span_one(l, index, 'u');
                     let kind = LexErrorKind::UnicodeEscapeMissingBrace { position: index };
                     return error(kind, span);
                 }
